@@ -68,9 +68,27 @@ ENTRY_CH = {"args": ["env", "cfg", "argv"], "object": ["env", "obj"], "string": 
 DOC_CH = {"object": "obj", "string": "str", "object-envsel": "obj"}
 HAS_K = {"Base": True, "Derived": True, "DefK": True, "NoK": False}
 
-LEAVES = {"plain": ["s"], "two": ["s1", "s2"], "grp": ["data.n", "data.m"], "cgroup": ["data.n", "data.m"],
+LEAVES = {"mix": None, "plain": ["s"], "two": ["s1", "s2"], "grp": ["data.n", "data.m"], "cgroup": ["data.n", "data.m"],
           "init": ["s"], "list": ["s"], "holder": ["h.save"], "spell": ["s"], "null": ["s"]}
 # targets whose option has several spellings (aliases + abbreviations, --t+ of list types, --no_t of yes/no flags)
+# links with several sources of which some are group-valued: kind per source (S int argument, Gd class group whose
+# compute_fn parameter is annotated as a mapping, Gn class group with an unannotated parameter), every position
+MIX_QUICK = {None: ["S-Gd", "Gd-S", "Gd-Gn", "Gn-Gd"], "sub": ["S-Gd", "Gn-Gd"]}
+MIX_ALL = ["S-Gd", "Gd-S", "S-Gn", "Gn-S", "Gd-Gd", "Gd-Gn", "Gn-Gd", "S-S-Gd", "S-Gn-Gd", "Gd-S-Gd"]
+
+
+def mix_leaves(sk):
+    out, ns, ng = [], 0, 0
+    for kd in sk.split("-"):
+        if kd == "S":
+            ns += 1
+            out.append("s" if ns == 1 else f"s{ns}")
+        else:
+            ng += 1
+            out.append(("data" if ng == 1 else f"data{ng}") + ".n")
+    return out
+
+
 SPELL_KINDS = [("alias", None), ("list", "flist"), ("optlist", None), ("yesno", "fnot"), ("cglist", None)]
 
 
@@ -96,6 +114,8 @@ def variants(quick):
                 out.append(("grp", {"t": t, "fn": fn, "wrap": wrap}))
         for tk, fn in SPELL_KINDS:
             out.append(("spell", {"tk": tk, "fn": fn, "wrap": wrap}))
+        for sk in (MIX_QUICK.get(wrap, []) if quick else MIX_ALL if wrap != "subsub" else ["S-Gd"]):
+            out.append(("mix", {"sk": sk, "wrap": wrap}))
         for nk, fn, dn in null_kinds(quick, wrap) if wrap != "subsub" else ():
             out.append(("null", {"nk": nk, "fn": fn, "dn": dn, "wrap": wrap}))
     out.append(("plain", {"fn": "f1", "t": "req", "wrap": "subsub"})) if quick else None
@@ -244,6 +264,8 @@ def source_assignments(shape, entry, o, quick):
         leaves = leaves[:1]  # data.m is not a source of this link
     if o.get("tk") == "cglist":
         leaves = ["data.n"]
+    if shape == "mix":
+        leaves = mix_leaves(o["sk"])
     chs = ENTRY_CH[entry]
     per_leaf = subsets(chs) if entry != "print" else [[], ["argv"], ["cfg"]]
     if shape == "null":
@@ -262,6 +284,10 @@ def source_assignments(shape, entry, o, quick):
     if quick and entry == "args" and shape == "spell":
         # the spelling axis multiplies this family; every channel subset of one int source is in the `plain` shapes
         per_leaf = [[], ["env"], ["cfg"], ["argv"], ["env", "cfg", "argv"]]
+    if shape == "mix" and entry != "print" and (quick or len(leaves) > 2):
+        # the axis of this family is the position / annotation of the group-valued sources; every channel subset of
+        # int and group-member sources is in `two` / `grp`: per leaf none / one channel / all channels
+        per_leaf = [[], [chs[min(1, len(chs) - 1)]], list(chs)] if len(chs) > 1 else [[], list(chs)]
     out = []
     for combo in itertools.product(per_leaf, repeat=len(leaves)):
         src = {leaf: c for leaf, c in zip(leaves, combo) if c}
@@ -304,8 +330,11 @@ def enumerate_single(quick):
         if o.get("fn") == "fbad":
             entries = ["args", "object"]
         for entry in entries:
-            for src, cpos in source_assignments(shape, entry, o, quick):
+            assignments = source_assignments(shape, entry, o, quick)
+            for src, cpos in assignments:
                 base = {"k": "single", "shape": shape, "o": o, "entry": entry, "src": src, "cpos": cpos}
+                if (src, cpos) == assignments[-1] and entry != "print" and o.get("fn") != "fbad" and not o.get("sreq"):
+                    base["_full"] = True  # every source leaf through every channel of the entry point: history axis
                 if serial:
                     base["serial"] = serial
                 if reparse:
@@ -319,11 +348,11 @@ def enumerate_single(quick):
                 if shape == "null" and o["nk"] == "c2i":
                     for steps, tgt in null_c2i_targets(entry):
                         cases.append(dict(base, one={"x": steps}, tgt=tgt))
-                elif shape in ("plain", "two", "grp", "cgroup", "spell", "null"):
+                elif shape in ("plain", "two", "grp", "cgroup", "spell", "null", "mix"):
                     tgts = plain_targets(shape, o, entry)
                     if o.get("fn") == "fbad":
                         tgts = ["none"]
-                    if quick and shape == "null":
+                    if quick and shape in ("null", "mix"):
                         # the value axis (value / null per channel) multiplies this family: quick keeps one supply of
                         # the target per channel kind (own option, config / object / string key, environment on parse_env)
                         tgts = [t for t in tgts if t in ("none", "option", "cfg", "obj", "str") or (t == "env" and entry == "env")]
@@ -382,10 +411,73 @@ def enumerate_single(quick):
                                 if many:
                                     c["many"] = {"h.many": many}
                                 cases.append(c)
+    # History axis (the same parser object used more than once): on the cases that feed every source through every
+    # channel, (late<k>) only the first k links are declared before the parser is used for a first parse, the others
+    # afterwards - k = 0 for every shape, k = 1 too where the shape has two links; (warm) all links declared, then the
+    # same call made twice.  The earlier parse is the case's own input without a value for the target.
+    out = []
+    for c in cases:
+        if c.pop("_full", False) and hist_selected(c, quick):
+            hists = ["late0", "warm"] + (["late1"] if c["shape"] == "holder" else [])
+            if quick and (c.get("tgt", "none") != "none" or c["o"].get("wrap")):
+                hists = hists[:1] + hists[2:]  # the repeated call only bare and without a value for the target
+            for h in hists:
+                hc = dict(c, hist=h)
+                if quick:  # one dump format, the one that is re-parsed
+                    hc["serial"] = hc["reparse"] = ["yaml+nulls" if c["shape"] == "null" else "yaml"]
+                out.append(hc)
+    return cases + out
+
+
+def hist_selected(c, quick):
+    """Quick tier: the history axis leaves the class-configuration axis at one class from each channel."""
+    if not quick:
+        return True
+    if c["entry"] in ("string", "object-envsel") or (c["entry"] == "env" and not c["o"].get("wrap")):
+        return False  # parse_string shares parse_object's path; the environment is a channel of parse_args too
+    steps = [s for v in c.get("one", {}).values() for s in v]
+    if len(steps) > 1 or any(name not in ("Base", "OptK") for _, name in steps):
+        return False
+    many = [v for v in c.get("many", {}).values()]
+    if any(names not in (["NoK", "Base"], ["Base", "Derived"], ["NoK", "Base", "Derived"]) for _, names in many):
+        return False
+    if c.get("tgt") == "spelled" and c.get("spos") == "first":
+        return False
+    if c["o"].get("wrap") and c.get("tgt", "none") not in ("none", "option", "cfg", "obj", "str", "spec", "spelled"):
+        return False  # inside a subcommand one supply of the target per channel kind
+    return True
+
+
+def enumerate_files(quick):
+    """Family `files`: the class argument / class group that holds the target is given as a path to its own config
+    file - on argv, through the environment, or named inside a config file - so that its value carries __path__
+    and a multi-file save() writes it to a file of its own; every written file is inspected and the saved main file
+    is re-parsed with parse_path."""
+    cases = []
+    shapes = [("init", {"fn": "f1", "decl": "arg"}), ("init", {"decl": "sub"}), ("cgroup", {}), ("cgroup", {"fn": "f2"})]
+    classes = ["Base", "DefK", "NoK"]
+    if not quick:
+        shapes += [("init", {"decl": "arg"}), ("init", {"fn": "f1", "decl": "sub"}), ("cgroup", {"fn": "f1"})]
+        classes += ["Derived"]
+    for wrap in (None, "sub"):
+        for shape, o in shapes:
+            o = dict(o, subcfg=True, **({"wrap": wrap} if wrap else {}))
+            leaf = "s" if shape == "init" else "data.n"
+            for chans in ([], ["argv"], ["env", "cfg", "argv"]) if quick else subsets(ENTRY_CH["args"]):
+                base = {"k": "single", "shape": shape, "o": o, "entry": "args", "src": {leaf: chans} if chans else {},
+                        "cpos": "first", "files": True, "serial": ["save"], "reparse": ["save"]}
+                for ch in ("argvfile", "cfgfile", "envfile"):
+                    if shape == "init":
+                        for cls in classes:
+                            for tgt in ("none", "spec") if HAS_K[cls] else ("none",):
+                                cases.append(dict(base, one={"x": [[ch, cls]]}, tgt=tgt))
+                    else:
+                        for tgt in ("none", "gfile"):
+                            cases.append(dict(base, gfile={"model": ch}, tgt=tgt))
     return cases
 
 
-def enumerate_linksets(quick):
+def enumerate_linksets(quick, hist_only=False):
     """Every single link and every ordered pair of the catalogue; every ordered triple (quadruple) of distinct links
     in which the order of application is constrained by at least two (three) dependencies through nested keys and
     that must not be refused outright - dependency chains and fans of three (four) links in every declaration order;
@@ -394,6 +486,8 @@ def enumerate_linksets(quick):
 
     links = [[list(s), f, t] for s, f, t in LINKS]
     sets = [[a] for a in links] + [[a, b] for a in links for b in links]
+    if hist_only:
+        sets = [[a, b] for a in links for b in links]  # a parse between two declarations needs two links
 
     def constrained(size):
         out = []
@@ -406,6 +500,12 @@ def enumerate_linksets(quick):
         return out
 
     out = [{"k": "linkset", "links": s} for s in sets]
+    if hist_only:
+        # History axis: the parser is used for a parse after every single declaration, then for all inputs in a row
+        if quick:  # pairs, two of the four inputs (defaults, argv)
+            return [dict(c, hist="used", inputs=[0, 1]) for c in out]
+        out = [dict(c, hist="used") for c in out]
+        return out + [{"k": "linkset", "links": s, "hist": "used"} for s in constrained(3)]
     if quick:
         # the order of application does not depend on the channel: of the four inputs (defaults, argv, config,
         # object) the triples get the first two in the quick tier
@@ -446,8 +546,8 @@ def run_case(case):
 
 def explore(ctx):
     quick = ctx.quick
-    singles = enumerate_single(quick)
-    linksets = enumerate_linksets(quick)
+    singles = enumerate_single(quick) + enumerate_files(quick)
+    linksets = enumerate_linksets(quick) + enumerate_linksets(quick, hist_only=True)
     cases = sorted(singles + linksets, key=case_size)  # simplest first (the driver permutes by seed)
     n = {"cases": 0, "accepted": 0, "rejected": 0, "rejected_as_required": 0, "judged": 0, "ignored": 0, "dumps": 0,
          "reparsed": 0, "refused_sets": 0, "accepted_sets": 0, "linkset_parses": 0, "print": 0}
@@ -462,6 +562,13 @@ def explore(ctx):
         n["cases"] += 1
         for s, d in devs:
             ctx.deviation(s, case, d)
+        if case.get("hist"):
+            n["hist_cases"] = n.get("hist_cases", 0) + 1
+            if case["k"] == "linkset" and obs.get("accepted_set"):
+                n["hist_sets_parsed_between_declarations"] = n.get("hist_sets_parsed_between_declarations", 0) + 1
+            if case["k"] == "single" and obs.get("accepted"):
+                key = "hist_repeated_call" if case["hist"] == "warm" else "hist_links_declared_after_a_parse"
+                n[key] = n.get(key, 0) + 1
         if case["k"] == "linkset":
             n["refused_sets"] += obs.get("refused", 0)
             n["accepted_sets"] += obs.get("accepted_set", 0)
@@ -478,6 +585,10 @@ def explore(ctx):
             n[key] += obs.get(key, 0)
         if case["entry"] == "print":
             n["print"] += 1
+        if case.get("files"):
+            n["saves_with_subfiles"] = n.get("saves_with_subfiles", 0) + (1 if obs.get("saved_subfiles") else 0)
+        if case["shape"] == "mix" and obs.get("accepted"):
+            n["mixed_source_links_accepted"] = n.get("mixed_source_links_accepted", 0) + 1
         if obs.get("spelled"):
             key = obs["spelled"] + (":rejected" if obs.get("rejected_as_required") else ":not-rejected")
             spelled[key] = spelled.get(key, 0) + 1
@@ -516,7 +627,10 @@ def explore(ctx):
             "subcommand_depth": 2,
             "source_leaves_per_link": 2,
             "channels": ENTRY_CH,
-            "serialisers": ["yaml", "json", "--print_config"] + ([] if quick else ["yaml+skip_default", "save"]),
+            "serialisers": ["yaml", "json", "--print_config", "save (multi-file, family files)"]
+            + ([] if quick else ["yaml+skip_default", "save"]),
+            "histories": "links declared after the parser's first parse (late<k>), the same call twice (warm), link "
+            "sets with a parse after every declaration and all inputs on one parser (used)",
         },
         counts=n,
         link_set_relations=relations,
@@ -546,5 +660,10 @@ def explore(ctx):
     ctx.require(all(spelled.get(c + ":rejected", 0) + spelled.get(c + ":not-rejected", 0) > 10
                     for c in ("canonical", "alias", "abbrev", "append", "negation")),
                 f"every class of spelling of a plain target's option was tried ({spelled})")
+    ctx.require(n.get("hist_links_declared_after_a_parse", 0) > 100 and n.get("hist_repeated_call", 0) > 50
+                and n.get("hist_sets_parsed_between_declarations", 0) > 100,
+                "history axis: links declared on a parser that had already parsed, repeated calls, parses between declarations")
+    ctx.require(n.get("saves_with_subfiles", 0) > 100, "multi-file saves that write the argument holding the target to its own file")
+    ctx.require(n.get("mixed_source_links_accepted", 0) > 100, "links with scalar and group-valued sources mixed were parsed")
     missing = {fam: sorted(need - w) for fam, w in winners.items() if need - w}
     ctx.require(not missing, f"every channel is seen to determine the final source value in every shape family (missing: {missing})")
